@@ -13,6 +13,7 @@
 //       record one past the end of the last block (repo_patches/33) and that record must be
 //       inside the block for the run to be well defined.
 //       blocks=B -> block_count (default 2)
+//       sentinel=0 -> do not initialise the slot behind the last row (see WriteInput)
 #include "lm/builder/adjust_counts.hh"
 #include "lm/builder/payload.hh"
 #include "lm/common/ngram_stream.hh"
@@ -64,17 +65,27 @@ class KeepCopy {
 
 class WriteInput {
   public:
-    explicit WriteInput(const Case *c) : c_(c) {}
+    WriteInput(const Case *c, bool sentinel) : c_(c), sentinel_(sentinel) {}
     void Run(const util::stream::ChainPosition &position) {
       NGramStream<BuildingPayload> input(position);
       for (std::size_t i = 0; i < c_->rows.size(); ++i, ++input) {
         std::copy(c_->rows[i].begin(), c_->rows[i].end(), input->begin());
         input->Value().count = c_->counts[i];
       }
+      // CollapseStream::operator++ evaluates the record one past the end of the last block after the
+      // stream has ended (count <= threshold, prune_words_[word]); in lmplz that is stale block memory
+      // (known finding collapse-stream-past-end, repo_patches/33).  The last block is never full here
+      // (see RunCase), so that slot exists: give it defined, harmless contents.  Poison() cuts the
+      // block before it; it is never part of the table.
+      if (sentinel_) {
+        std::fill(input->begin(), input->end(), static_cast<WordIndex>(0));
+        input->Value().count = ~0ULL >> 1;
+      }
       input.Poison();
     }
   private:
     const Case *c_;
+    bool sentinel_;
 };
 
 bool ParseList(const std::string &s, std::vector<uint64_t> &out) {
@@ -142,7 +153,7 @@ struct Rec {
   bool operator<(const Rec &o) const { return key < o.key; }
 };
 
-std::string RunCase(const Case &c, std::size_t block_entries, std::size_t block_count) {
+std::string RunCase(const Case &c, std::size_t block_entries, std::size_t block_count, bool sentinel) {
   const std::size_t order = c.order;
   std::vector<KeepCopy> outputs(order);
   std::vector<uint64_t> counts, counts_pruned;
@@ -167,7 +178,7 @@ std::string RunCase(const Case &c, std::size_t block_entries, std::size_t block_
       config.total_memory = config.entry_size * k * block_count;
       chains.push_back(config);
     }
-    chains[order - 1] >> WriteInput(&c);
+    chains[order - 1] >> WriteInput(&c, sentinel);
     util::stream::ChainPositions for_adjust(chains);
     for (std::size_t i = 0; i < order; ++i) chains[i] >> boost::ref(outputs[i]);
     chains >> util::stream::kRecycle;
@@ -218,8 +229,10 @@ std::string RunCase(const Case &c, std::size_t block_entries, std::size_t block_
 
 int main(int argc, char **argv) {
   std::size_t block_entries = 0, block_count = 2;
+  bool sentinel = true;
   for (int i = 1; i < argc; ++i) {
     if (!strncmp(argv[i], "block=", 6)) block_entries = strtoull(argv[i] + 6, NULL, 10);
+    else if (!strcmp(argv[i], "sentinel=0")) sentinel = false;
     else if (!strncmp(argv[i], "blocks=", 7)) block_count = std::max<std::size_t>(1, strtoull(argv[i] + 7, NULL, 10));
   }
   std::string line;
@@ -228,7 +241,7 @@ int main(int argc, char **argv) {
     Case c;
     if (!Parse(line, c)) { puts("error parse"); fflush(stdout); continue; }
     try {
-      std::string out = RunCase(c, block_entries, block_count);
+      std::string out = RunCase(c, block_entries, block_count, sentinel);
       puts(out.c_str());
     } catch (const BadDiscountException &e) {
       puts("error bad-discount");
